@@ -28,8 +28,8 @@ package keeper
 //@ requires amount >= 0
 //@ requires addr != modAddr("commitment")
 //@ ensures C12/total-committed: err == nil && denom != ptypes.Eden && denom != ptypes.EdenB ==> c12TotalGap(ctx, d) == old(c12TotalGap(ctx, d))
-//@ ensures C12,C07/account-delta: err == nil && denom != ptypes.Eden && denom != ptypes.EdenB ==> committedOf(k.GetCommitments(ctx, addr), d) == old(committedOf(k.GetCommitments(ctx, addr), d)) + ite(d == denom, amount, 0)
-//@ ensures C12/custody: err == nil && denom != ptypes.Eden && denom != ptypes.EdenB ==> c12CustodyGap(ctx, d) == old(c12CustodyGap(ctx, d))
+//@ ensures C12,C07,C02/account-delta: err == nil && denom != ptypes.Eden && denom != ptypes.EdenB ==> committedOf(k.GetCommitments(ctx, addr), d) == old(committedOf(k.GetCommitments(ctx, addr), d)) + ite(d == denom, amount, 0)
+//@ ensures C12,C02/custody: err == nil && denom != ptypes.Eden && denom != ptypes.EdenB ==> c12CustodyGap(ctx, d) == old(c12CustodyGap(ctx, d))
 
 // UncommitTokens: the account's amount and the sum go down by exactly `amount`, the lock is
 // respected, custody follows. Params.TotalCommitted is the known defect (see known_findings).
@@ -41,11 +41,11 @@ package keeper
 //@ ensures C02,C07/custody-releases-the-tokens: err == nil && denom != ptypes.Eden && denom != ptypes.EdenB ==> bal(ctx, modAddr("commitment"), d) == old(bal(ctx, modAddr("commitment"), d)) - ite(d == denom, amount, 0) && bal(ctx, addr, d) == old(bal(ctx, addr, d)) + ite(d == denom, amount, 0) && supply(ctx, d) == old(supply(ctx, d))
 //@ requires amount >= 0
 //@ requires addr != modAddr("commitment")
-//@ ensures C12/account-delta: err == nil && denom != ptypes.Eden && denom != ptypes.EdenB ==> committedOf(k.GetCommitments(ctx, addr), d) == old(committedOf(k.GetCommitments(ctx, addr), d)) - ite(d == denom, amount, 0)
-//@ ensures C12/sum-delta: err == nil && denom != ptypes.Eden && denom != ptypes.EdenB ==> committedTotal(ctx, d) == old(committedTotal(ctx, d)) - ite(d == denom, amount, 0)
+//@ ensures C12,C02/account-delta: err == nil && denom != ptypes.Eden && denom != ptypes.EdenB ==> committedOf(k.GetCommitments(ctx, addr), d) == old(committedOf(k.GetCommitments(ctx, addr), d)) - ite(d == denom, amount, 0)
+//@ ensures C12,C02/sum-delta: err == nil && denom != ptypes.Eden && denom != ptypes.EdenB ==> committedTotal(ctx, d) == old(committedTotal(ctx, d)) - ite(d == denom, amount, 0)
 //@ ensures C12/no-overdraw: err == nil && denom != ptypes.Eden && denom != ptypes.EdenB ==> old(committedOf(k.GetCommitments(ctx, addr), denom)) >= amount
 //@ ensures C12/lock-respected: err == nil && !isLiquidation && denom != ptypes.Eden && denom != ptypes.EdenB ==> committedOf(k.GetCommitments(ctx, addr), denom) >= old(lockedFor(k.GetCommitments(ctx, addr), denom, blockTime(ctx)))
-//@ ensures C12/custody: err == nil && denom != ptypes.Eden && denom != ptypes.EdenB ==> c12CustodyGap(ctx, d) == old(c12CustodyGap(ctx, d))
+//@ ensures C12,C02/custody: err == nil && denom != ptypes.Eden && denom != ptypes.EdenB ==> c12CustodyGap(ctx, d) == old(c12CustodyGap(ctx, d))
 //@ ensures C12/total-committed: err == nil && denom != ptypes.Eden && denom != ptypes.EdenB ==> c12TotalGap(ctx, d) == old(c12TotalGap(ctx, d))
 //@ ensures C12/known-defect-total-grows-on-uncommit: err == nil && denom != ptypes.Eden && denom != ptypes.EdenB ==> amt(k.GetParams(ctx).TotalCommitted, d) == old(amt(k.GetParams(ctx).TotalCommitted, d)) + ite(d == denom, amount, 0)
 
